@@ -338,7 +338,11 @@ class DictDecoder:
             # xs:anyType element, check all meta classes
             return self.bind_best_dataclass(data, meta.element_types)
 
-        assert var.clazz is not None
+        if var.clazz is None:
+            raise ParserError(
+                f"Failed to bind object with properties({list(data.keys())}) "
+                f"to {meta.clazz.__qualname__}.{var.name} field"
+            )
 
         subclasses = set(self.context.get_subclasses(var.clazz))
         if subclasses:
